@@ -96,15 +96,21 @@ func loadWorld(repo string) (*World, error) {
 		}
 		flat, ferr := loadOnce(overlayAll)
 		if ferr != nil {
-			loadNotes = append(loadNotes, "helper inlining abandoned (rewritten program does not type-check; analysing the program as written): "+firstLine(ferr.Error()))
+			if round == 0 {
+				loadNotes = append(loadNotes, "helper inlining abandoned (rewritten program does not type-check; analysing the program as written): "+firstLine(ferr.Error()))
+			} else {
+				loadNotes = append(loadNotes, fmt.Sprintf("helper inlining stopped after round %d (the next rewrite does not type-check; analysing the result of round %d): %s", round, round, firstLine(ferr.Error())))
+			}
 			if os.Getenv("KPVERIFY_DEBUG_INLINE") != "" {
 				for k, v := range overlayAll {
 					os.WriteFile("/tmp/kpinline_"+strings.ReplaceAll(strings.TrimPrefix(k, repo+"/"), "/", "_"), v, 0o644)
 				}
 				fmt.Fprintln(os.Stderr, ferr)
 			}
-			if pkgs, err = loadOnce(nil); err != nil {
-				return nil, err
+			if round == 0 {
+				if pkgs, err = loadOnce(nil); err != nil {
+					return nil, err
+				}
 			}
 			break
 		}
